@@ -161,6 +161,21 @@ CHECKS = {
              note=T_BASE + '; SHA-256 collision resistance is ASSUMED for the soundness step only; deserialisers used by check_account_proof are replaced by their contracts (C03/C05/C16)',
              technique='contracts (accept-iff predicates taken from the property) on the real functions, symbolic execution over all paths with abstract cells, relational obligations, z3 (LIA + EUF digests); collision freedom asserted as an axiom where named; native mutation sweep (bounded)',
              design_ref='DESIGN.md §5 C11'),
+ 'C14': dict(category='other',
+             text='The three bundled schema files are read on every run by an independent reader (vf/spec/tl.py) and by the library.  '
+                  'Registry (concrete, exhaustive): every declaration gets the same id (CRC32 of the whitespace-normalised text or the '
+                  'explicit #id), name, class and fields with conditions; lookups by id/name/class.  Deductive, per constructor whose '
+                  'field types the library can express (738 of 796; excluded: double, int32/int53/int64, secure*, vector<T>, Object/Function '
+                  'fields - listed in the evidence) x every flag subset (<=3 flag bits exhaustive, else all/none/singles) x rotations over '
+                  'bytes/string lengths {0,1,2,3,4,252..257,1000,65540} (framing boundary 253/254 and all padding residues), vector '
+                  'lengths 0..2, Bool values and boxed alternatives: serialize(schema, v) == TL encoding and deserialize(encoding) == '
+                  '(v, len), with all integers, hashes and byte contents SYMBOLIC; nested objects inside bytes fields in auto-deserialise '
+                  'mode; BlockId/BlockIdExt bytes and dict round trips, int hash, equal ids hash equally.  Level other because string/bytes '
+                  'LENGTHS and vector lengths are a finite rotation (contents symbolic), not symbolic lengths, and raw bytes fields are '
+                  'parsed with auto-deserialise off (a raw bytes value starting with a registered id is reinterpreted by design).',
+             note=T_BASE + '; T2 UTF-8 encode/decode inverse pair for string fields; zlib.crc32 computed concretely on both sides',
+             technique='contracts (TL binary encoding as postcondition) on the real serialize/deserialize, symbolic execution over all paths per constructor and shape, z3; exhaustive concrete comparison of the schema registry; native random values (bounded)',
+             design_ref='DESIGN.md §5 C14'),
  'C15': dict(category='other',
              text='Deductive: (room) MessageAny.serialize for 3 header kinds x size profiles (minimal, maximal with anycast and 15-byte '
                   'amounts, extra currencies) x state-init absent / all 32 field combinations x body reference count 0..4 with a body of '
